@@ -201,6 +201,8 @@ def generate(rng, tier, ctx):
             cases.append(('f_run ellswift.ge_x_on_curve_var x=%s / ret' % fv(xq), ('f_run', 'ge_x_on_curve_var')))
             d = rng.randint(1, P - 1)
             cases.append(('f_run ellswift.ge_x_frac_on_curve_var xn=%s xd=%s / ret' % (fv(xq * d % P), fv(d)), ('f_run', 'ge_x_frac_on_curve_var')))
+        for tv in (0, 1, 2, P - 1, rng.scalar(0.3) % P, rng.scalar(0.3) % P):
+            cases.append(('f_run generator.svdw t=%s / ge.x ge.y ge.infinity' % fv(tv), ('f_run', 'svdw')))
         cases.append(('f_run ellswift.ge_set_gej %s / r.x r.y r.infinity' % jac('a', A_, za, 0), ('f_run', 'ge_set_gej')))
         for ia in (0, 1):
             cases.append(('f_run ellswift.ge_set_gej_var %s / r.x r.y r.infinity' % jac('a', A_, za, ia), ('f_run', 'ge_set_gej_var')))
